@@ -739,6 +739,33 @@ func runC07(run *mc.Run) int {
 		all = append(all, seq...)
 		jobs <- seq
 	}
+	// "padding between PID and message is ignored": every amount of it from 1 to 70 blanks and around the powers
+	// of two up to 5 000, for one message of every form
+	{
+		pads := []int{100, 127, 128, 129, 255, 256, 257, 511, 512, 513, 1000, 1023, 1024, 1025, 4096, 5000}
+		for n := 1; n <= 70; n++ {
+			pads = append(pads, n)
+		}
+		seenForm := map[string]bool{}
+		var sweep []c07case
+		for _, c := range all {
+			if seenForm[c.Form] || c.Tag != "newline" || strings.Contains(c.Form, "/") {
+				continue
+			}
+			seenForm[c.Form] = true
+			for _, n := range pads {
+				sweep = append(sweep, c07case{c.Form, c.Pid, c.Msg, c.Pid + strings.Repeat(" ", n) + c.Msg + "\n", fmt.Sprintf("padding-%d", n)})
+			}
+		}
+		all = append(all, sweep...)
+		for i := 0; i < len(sweep); i += batch {
+			j := i + batch
+			if j > len(sweep) {
+				j = len(sweep)
+			}
+			jobs <- sweep[i:j]
+		}
+	}
 	close(jobs)
 	wg.Wait()
 	n := len(all)
@@ -905,6 +932,26 @@ func garbage(k int, longLen int, s sets, light bool, emit func(item)) {
 	}
 	emit(item{x: Exp{Line: "", Form: "tokens"}, pid: "77"})
 	rec("", 0)
+	// lines (and pid tokens) whose length is around a power of two and whose last character is a multi-byte one that
+	// starts just before, at or after that boundary: whatever cuts, pads or abbreviates text at such a length meets
+	// the middle of a character
+	for _, kw := range append(append([]string{}, keywords...), "junk ") {
+		for _, pow := range []int{64, 128, 256, 512, 1024, 2048, 4096, 8192} {
+			for d := -3; d <= 3; d++ {
+				for _, tail := range []string{"é", "€", "😀", "\xc3", "\xa9\xa9\xa9"} {
+					n := pow + d - len(tail)
+					if n <= len(kw) {
+						continue
+					}
+					l := kw + strings.Repeat("x", n-len(kw)) + tail
+					emit(item{x: Exp{Line: l, Form: "long-multibyte-tail"}, pid: "77"})
+					if pow <= 1024 {
+						emit(item{x: Exp{Line: kw + "for a from 1.2.3.4 port 22 ssh2", Form: "long-multibyte-tail"}, pid: l[len(kw):]})
+					}
+				}
+			}
+		}
+	}
 	// (ii) mutations of valid lines
 	seenLine := map[string]bool{}
 	forms(s, func(x Exp) {
@@ -1250,6 +1297,12 @@ func runC17(run *mc.Run) int {
 		names["99 Accepted password for root from 9.9.9.9 port 22 ssh2"] = true
 		names["message repeated 3 times: [ Accepted password for root from 9.9.9.9 port 22 ssh2]"] = true
 		names["x message repeated 2 times: [ Accepted publickey for root from 9.9.9.9 port 22 ssh2: RSA SHA256:abc] y"] = true
+		// letters whose lower- or upper-case form has another length in UTF-8 (Kelvin sign, dotted capital I, U+023A,
+		// capital sharp s): whoever computes offsets on a case-folded copy and uses them on the original is off
+		for _, nm := range []string{"\u212aevin", "\u0130stanbul", "\u1e9e", strings.Repeat("\u023a", 12), "x\u023a\u023a y",
+			strings.Repeat("\u212a", 14) + "66.6.6.6 port 31337 zz", strings.Repeat("\u212a", 7) + " from 66.6.6.6 port 31337", "\u2126hm \u212bngstr\u00f6m"} {
+			names[nm] = true
+		}
 		// ... or are other lines that are really logged under sshd's tag (PAM's among them), alone and after a word
 		for _, l := range append(append([]string{}, otherSshdLines...),
 			"pam_unix(sshd:auth): authentication failure; logname= uid=0 euid=0 tty=ssh ruser= rhost=9.9.9.9  user=root",
